@@ -49,6 +49,7 @@ TReset ==
     /\ act' = [op |-> "Init"]
 
 TSubmit   == Step("Submit")   /\ Submit(Ev.batch)
+TSubmitV  == Step("SubmitV")  /\ SubmitValidated(Ev.batch) /\ \A i \in 1..Len(Ev.batch) : T.valid[Ev.batch[i]] /\ H(Ev.batch[i]) > ReqH
 TRevert   == Step("Revert")   /\ mem = Ev.b /\ RevertStep
 TApply    == Step("Apply")    /\ ApplyStep /\ mem' = Ev.b
 TMidFlush == Step("MidFlush") /\ MidFlush
@@ -95,8 +96,17 @@ TPoll ==
 
 TMinReorg == Step("MinReorg") /\ pc.k = "idle" /\ MinReorg = Ev.b /\ UNCHANGED vars
 
+\* read-only queries: the real answers must be exactly the specification's
+THist == Step("Hist") /\ pc.k = "idle" /\ Ev.rus = HistoryIds /\ UNCHANGED vars
+THdrs == /\ Step("Hdrs") /\ pc.k = "idle"
+         /\ LET r == HeadersOf(Ev.b, Ev.max) IN Ev.err = r.err /\ (r.err = "ok" => Ev.aus = r.ids /\ Ev.from = r.rem)
+         /\ UNCHANGED vars
+TBlks == /\ Step("Blks") /\ pc.k = "idle"
+         /\ LET r == BlocksOf(Ev.rus, Ev.max) IN Ev.err = r.err /\ (r.err = "ok" => Ev.aus = r.ids /\ Ev.from = r.rem)
+         /\ UNCHANGED vars
+
 TraceNext ==
-    \/ TReset \/ TSubmit \/ TRevert \/ TApply \/ TMidFlush \/ TFinish \/ TFail \/ TPanic
+    \/ TReset \/ TSubmit \/ TSubmitV \/ THist \/ THdrs \/ TBlks \/ TRevert \/ TApply \/ TMidFlush \/ TFinish \/ TFail \/ TPanic
     \/ TPrune \/ TCrash \/ TDone \/ TReopened \/ TPoll \/ TMinReorg
 
 TraceSpec == TraceInit /\ [][TraceNext]_tvars
